@@ -19,6 +19,9 @@ import collections
 VERIF = os.path.dirname(os.path.dirname(os.path.abspath(__file__)))
 
 META = {
+    'F36': 'nested run_timeout: when the outer time limit interrupts the outer worker while it is inside an inner run_timeout '
+           '(between leaving the inner pool and joining the inner worker), the inner worker is neither interrupted nor joined: after '
+           'the outer call has returned it is still executing the inner function (schedule recorded in the replay file)',
     'F34': 'linked design-variable nodes that do not always exist together: the variable belongs to the first node of the link; '
            'when that node is absent the other (existing) node never receives a value '
            '(e.g. C0: a->[o1,o2]; D1 under o2, D2 under a, LINKED(D1,D2): for C0=o1 the instance contains D2 without a value)',
@@ -68,6 +71,8 @@ def classify(prop, v):
     spec = case.get('spec') if isinstance(case, dict) else None
     if prop == 'C16' and v.get('kind') == 'existing-linked-node-without-value':
         return 'F34'
+    if prop == 'C19' and v.get('kind') == 'worker-still-running-the-function-after-return' and case.get('shape') == 'nested':
+        return 'F36'
     enc = case.get('enc') if isinstance(case, dict) else None
     if spec is None:
         return None
